@@ -422,7 +422,30 @@ func TestRepeatPrograms(t *testing.T) {
 	rapid.Check(t, func(t *rapid.T) {
 		var c progCase
 		labels := []string{}
-		switch rapid.IntRange(0, 10).Draw(t, "kind") {
+		switch rapid.IntRange(0, 12).Draw(t, "kind") {
+		case 11, 12: // errors whose message names ONE of several offending entries of a dictionary:
+			// which one is named is the same on every run (generation of JSON from values
+			// without JSON form, comparison / search with values that cannot be compared)
+			offenders := []string{"显示", "（新建狗）", "（新建猫）", "异常", "某法", "1 / {1 - 1}"}
+			n := rapid.IntRange(2, 6).Draw(t, "n")
+			keys := rapid.Permutation([]string{"q", "w", "e", "r", "t", "y", "u"}).Draw(t, "keys")[:n]
+			var ps []string
+			bad := 0
+			for i, k := range keys {
+				val := fmt.Sprint(i)
+				if i < 2 || rapid.Bool().Draw(t, "offender") {
+					val = rapid.SampledFrom(offenders[:5]).Draw(t, "which")
+					bad++
+				}
+				ps = append(ps, fmt.Sprintf("“%s” = %s", k, val))
+			}
+			lit := "【" + strings.Join(ps, "，") + "】"
+			if rapid.Bool().Draw(t, "nested") {
+				lit = "【“外” = 【1，" + lit + "】，“别” = 显示】"
+			}
+			use := rapid.SampledFrom([]string{"（生成JSON：典）", "（生成JSON：【“层” = 【典】】）", "典 == 典二", "以【典二】（寻找：典）", "“{#}” % 【典】"}).Draw(t, "use")
+			c.Src = "导入《@JSON》\n定义狗：\n    其名 = “黄”\n定义猫：\n    其名 = “花”\n如何某法？\n    输出1\n令典 = " + lit + "\n令典二 = " + lit + "\n（显示：" + use + "）\n输出“没有异常”\n拦截异常：\n    （显示：其内容）\n    输出其内容"
+			labels = append(labels, "error-naming-one-of-several-offenders")
 		case 9, 10: // built-in members of texts and lists whose arguments (and receiver) are made of the
 			// pieces those members give a meaning to - placeholders inside the texts that replace
 			// placeholders, separators inside the parts, the pattern inside the replacement: what
